@@ -1,7 +1,7 @@
 import G3D.Proofs.FlatPolygon
 import G3D.Proofs.Polyhedron
 import G3D.Props.C04
-import G3D.Proofs.BodySoundSets
+import G3D.Proofs.BodySoundInter
 import G3D.Proofs.K5
 import G3D.Proofs.K3
 import G3D.Proofs.BridgeExact
